@@ -330,6 +330,7 @@ Proof.
       { rewrite Nat2Z.inj_succ. unfold Z.succ. apply pow2_succ. lia. }
       pose proof (pow2_pos (Z.of_nat i) ltac:(lia)) as Hp.
       destruct (Hdiv (S i) ltac:(lia)) as [c [Hc1 Hc]].
+      assert (Hge : 2 ^ Z.of_nat (S i) <= N + 1) by nia.
       rewrite (HT (a (S i)) (N + 1)) by (unfold a; lia).
       replace (N + 1 - a (S i)) with (2 ^ Z.of_nat (S i)) by (unfold a; lia).
       rewrite (split_point_unique _ (Z.of_nat i)) by lia.
